@@ -140,6 +140,7 @@ def cases(tier):
     step = max(1, len(extra) // (12 if tier == "quick" else 40))
     stacks += extra[::step]
     for s in stacks:
-        cs.append(dict(name="stack." + "/".join(s), fn=h_stack, params=dict(kinds=list(s), m=m), profile="real", oblig_timeout_s=120,
-                       budget_s=900, weight=len(s)))
+        mm = m if s.count("precision") < 3 else m - 1  # three precision layers fork 3x per call: one call less keeps the case in budget
+        cs.append(dict(name="stack." + "/".join(s), fn=h_stack, params=dict(kinds=list(s), m=mm), profile="real", oblig_timeout_s=120,
+                       budget_s=2400, max_paths=400000, weight=len(s) + 3 * s.count("precision")))
     return cs
